@@ -85,7 +85,11 @@ def task(t):
                     Tt = ta.term * v.term / (pm.term * T.Q(c))
                     num, den = ta, pm
                 if (not w.has_ref(OQ)) and vu != (pu if form != "q/rate" else tu):
-                    # operand type without reference unit and different units: must panic (C10); not a C13 obligation
+                    # operand type without reference unit in another unit than the rate's: the documented panic, never a number
+                    okp = bool(outs) and all(o.panic for o in outs)
+                    R.oblig(pair + " different units of a type without reference unit: panics", okp, False)
+                    if not okp:
+                        R.candidates.append(cand(be, w, form, TQ, PQ, tu, pu, vu, None, pair, "no-panic"))
                     continue
                 for o in outs:
                     if o.panic:
@@ -118,6 +122,35 @@ def task(t):
                             R.oblig(pair + " range:" + desc_[:24], res == "unsat", True)
                             if res != "unsat":
                                 R.inconclusive.append("%s: T_re64 range side obligation not discharged (%s): %s" % (pair, res, desc_))
+        # ---------------- mutually inverse: (rate * q) / rate returns q (f64, thorough tier; sum of the two tolerances)
+        import os as _os
+        if be == "f64" and _os.environ.get("VERIF_TIER") == "thorough" and TQ != AMT and PQ != AMT and w.has_ref(TQ) and w.has_ref(PQ):
+            for vu in w.units(PQ)[:3]:
+                pair = "%s Rate<%s,%s>[%s per %s] (rate*q)/rate [%s]" % (be, TQ, PQ, tu, pu, vu)
+                th = T.TRe64()
+                run = driver.Run(w, th)
+                ta, pm, v = th.var("ta"), th.var("pm"), th.var("v")
+                box = z3.And(E.box_nz(th, ta, tol.BOX64_3), E.box_nz(th, pm, tol.BOX64_3), E.box1(th, v, tol.BOX64_3))
+                run.assume(box)
+                st = run.state()
+                rate = mk_rate(run, st, TQ, PQ, ta, tu, pm, pu)
+                qv = run.qty(st, PQ, v, vu)
+                o1 = run.call(st, "<rate::Rate<%s, %s> as Mul<%s>>::mul" % (TQ, PQ, PQ), [rate, qv])
+                ok = len(o1) == 1 and not o1[0].panic
+                if ok:
+                    o2 = run.call(o1[0].state, "<%s as Div<rate::Rate<%s, %s>>>::div" % (TQ, TQ, PQ), [o1[0].value, rate])
+                    ok = len(o2) == 1 and not o2[0].panic
+                if ok:
+                    back = o2[0].value
+                    ok = run.unit_of(o2[0].state, PQ, back) == pu
+                    r = run.amount_of(o2[0].state, PQ, back)
+                    want = v.term * T.Q(w.scale_fr(PQ, vu) / w.scale_fr(PQ, pu))
+                    res, _ = sv_.check([box] + th.cons + o2[0].pc + [z3.Not(T.zabs(r.term - want) <= T.Q(2 * tol.K64_RATE * tol.U) * T.zabs(want))])
+                    ok = ok and res == "unsat"
+                R.oblig(pair, ok, True, {"obligation": pair, "theory": "T_re64", "goal": "(rate*q)/rate is q (in the per unit) within the summed tolerance"})
+                if not ok:
+                    R.inconclusive.append("%s: not discharged" % pair)
+                R.absorb_exec(run.ex)
         # ---------------- term identities (T_uf)
         if PQ != AMT or TQ != AMT:
             th = T.TUf(be)
@@ -171,6 +204,8 @@ def oracle(c, out, scales):
     if be == "f64" and not all(math.isfinite(x) for x in (ta, pm, v)):
         return None, "non-finite"
     unit, r = rgen.parse_q(be, out)
+    if c.get("kind") == "no-panic":
+        return (unit != "PANIC"), "value of a quantity without reference unit in another unit than the rate's was combined silently: %s" % out
     sc = lambda q, u: F(scales[q][u]) if q in scales else F(1)
     if c["op"] == "qty_div_rate":
         if ta == 0:
@@ -278,13 +313,13 @@ def run(report, tier):
                         tasks.append((be, tq, pq, tu))
                 # single-unit and small synthetic types (fixture crate expanded by the real macro), mixed with catalogue types
                 fx = "fix" + be
-                for tq, pq in [("Pile", "Dose"), ("Dose", "Pile"), ("Pile", "Duration"), ("Dose", "Duration"), ("Pile", "Pile")]:
+                for tq, pq in [("Pile", "Dose"), ("Dose", "Pile"), ("Pile", "Duration"), ("Dose", "Duration"), ("Pile", "Pile"), ("Tri", "Dose"), ("Dose", "Tri"), ("Tri", "Pile")]:
                     for tu in desc[fx]["units"][tq]:
                         tasks.append((keys[fx], tq, pq, tu))
             E.shuffle(tasks)
             report.bounds.update({"f64_amount_box": "2^-250 <= |ta|,|pm| <= 2^250, v = 0 or in the same box; every intermediate proved zero-or-normal",
                                   "decimal_amount_box": "|.| <= 1e17, ta, pm != 0, paths without fpdec overflow",
-                                  "type_pairs": "quick: (Length,Duration), (Mass,AmountT), (AmountT,Duration), (Mass,Length), and with the synthetic single-unit Pile and 4-unit Dose: (Pile,Dose), (Dose,Pile), (Pile,Duration), (Dose,Duration), (Pile,Pile); thorough adds (DataVolume,Duration), (Duration,DataVolume), (Length,AmountT), (Energy,Mass); all unit triples"})
+                                  "type_pairs": "quick: (Length,Duration), (Mass,AmountT), (AmountT,Duration), (Mass,Length), and with the synthetic single-unit Pile and 4-unit Dose: (Pile,Dose), (Dose,Pile), (Pile,Duration), (Dose,Duration), (Pile,Pile), and with the no-reference type Tri: (Tri,Dose), (Dose,Tri), (Tri,Pile); thorough adds (DataVolume,Duration), (Duration,DataVolume), (Length,AmountT), (Energy,Mass); all unit triples"})
             cands = pool.run(report, task, tasks)
             pool.cross_check(report)
             E.native_confirm(report, "C13", cands, desc, oracle, probes=probes3)
